@@ -924,8 +924,15 @@ def simp_cc_conds(_, expr):
               "FLAG_SIGN_ADD",
               "FLAG_ADD_OF"
           )):
+        # sign != overflow: the exact (unbounded) sum is negative. "arg0 <s -arg1"
+        # is wrong when arg1 is the most negative value
         arg0, arg1 = expr.args[0].args
-        expr = ExprOp(TOK_INF_SIGNED, arg0, -arg1)
+        size = arg0.size + 1
+        expr = ExprOp(
+            TOK_INF_SIGNED,
+            arg0.signExtend(size) + arg1.signExtend(size),
+            ExprInt(0, size)
+        )
 
     return expr
 
